@@ -205,6 +205,7 @@ func (e *Explorer) checkWith(c *term, wantModel bool) string {
 }
 
 func (e *Explorer) budget() {
+	checkBudget()
 	if len(e.decs) > e.MaxDecs {
 		panic(engineAbort{fmt.Sprintf("BOUND-EXCEEDED: more than %d decisions on one path", e.MaxDecs)})
 	}
@@ -405,6 +406,7 @@ func (e *Explorer) RunPath(fn *ssa.Function, harness string, prefix []int64) (re
 	e.em = &emitter{defined: map[int]bool{}, ufs: map[string]bool{}, out: e.solver.send}
 	e.solver.send("(push 1)")
 	e.startInstrs = InstrCount
+	pathStart = time.Now()
 	callDepth = 0
 	e.I.restoreGlobals()
 	func() {
